@@ -3,6 +3,7 @@ import Pandora.Model.C19
 import Pandora.Model.C19Run
 import Pandora.Spec.C19
 import Pandora.Drv.C19Vars
+import Pandora.Drv.C19R6
 
 /-!
 C19 model driver: for one input line of harness/cmd/c19 computes the model's prediction of the observation and the
@@ -430,6 +431,8 @@ def grpcCallsOf : Nat → Fields → List (List String) → Option (List (GrpcCa
 
 /-- tokens of `sched=<ops>x<ms>` (`rps: [{type: const, ops, duration: <ms>ms}]`) -/
 def tokensOf (kv : List (String × String)) : Option Nat :=
+  -- round 6: a composite schedule, token instants by C02's model of core/schedule
+  if (lookup kv "schedx").isSome then (C19R6.schedxDues (getS kv "schedx")).map List.length else
   match (getS kv "sched").splitOn "x" with
   | [a, b] => do pure ((← a.toNat?) * (← b.toNat?) / 1000)
   | _ => none
@@ -464,10 +467,12 @@ def handleLoop (kv : List (String × String)) (impl : String) : String × String
           (hexOfStr s!"r{i}", match (reqs[i]!).splitOn ":" with | [_, t] => t | _ => "f")
         Spec.C19.judgeCarry ((dtag, "u") :: truthTab) agg
       else v0
+    -- round 6: a token may be dropped only when the instance asks for it MaxOverdueDuration or more after its time
+    let v := if v == "ok" && (lookup kv "schedx").isSome then C19R6.judgeSeq kv impl else v
     ("-", v)
 
 def handleRun (kv : List (String × String)) (impl : String) : String × String :=
-  if getS kv "disc" == "1" && (lookup kv "sched").isSome then handleLoop kv impl else
+  if getS kv "disc" == "1" && ((lookup kv "sched").isSome || (lookup kv "schedx").isSome) then handleLoop kv impl else
   let (res, n) := implRes impl
   let noCfg : AutoTagCfg := { enabled := false, uriElements := 2, noTagOnly := true }
   match getS kv "gun" with
@@ -637,6 +642,8 @@ def handle : Handler := fun input impl =>
       match dnsDials {} false os with
       | .ok (rs, cached) => (s!"fatal=0 bad={if rs == os && cached then 0 else 1}", "ok")
       | .panic m => (s!"fatal=1 {m}", "ok")
+  -- the real coreutil.Waiter over a scripted schedule (round 6; model: C04's `wait`, tied by Bridge.Waiter.Wait_eq)
+  | "wait" => C19R6.handleWait kv impl
   | "run" => if impl.startsWith "PANIC" then ("-", s!"fail:panic:{impl.take 160}") else handleRun kv impl
   | _ => ("-", "fail:driver:unknown case kind")
 
